@@ -29,6 +29,20 @@ def _cleanup():
         _STATE["dir"] = None
 
 
+def _sweep_stale(base):
+    """remove scratch copies left behind by checks that were killed (their creating process no longer exists)"""
+    try:
+        names = os.listdir(base or tempfile.gettempdir())
+    except OSError:
+        return
+    for name in names:
+        if not name.startswith("mpverif_"):
+            continue
+        parts = name.split("_")
+        if len(parts) >= 3 and parts[1].isdigit() and not os.path.exists("/proc/%s" % parts[1]):
+            shutil.rmtree(os.path.join(base or tempfile.gettempdir(), name), ignore_errors=True)
+
+
 def take():
     """Copy <repo>/mpilot (+tests) into a scratch dir, put it first on sys.path, return the dir."""
     if _STATE["dir"]:
@@ -36,7 +50,9 @@ def take():
     src = os.path.join(REPO, "mpilot")
     if not os.path.isdir(src):
         raise RuntimeError("no mpilot package under %s" % REPO)
-    d = tempfile.mkdtemp(prefix="mpverif_", dir=_scratch_base())
+    base = _scratch_base()
+    _sweep_stale(base)
+    d = tempfile.mkdtemp(prefix="mpverif_%d_" % os.getpid(), dir=base)
     ignore = shutil.ignore_patterns("__pycache__", "*.pyc")
     shutil.copytree(src, os.path.join(d, "mpilot"), ignore=ignore)
     tests = os.path.join(REPO, "tests")
